@@ -66,7 +66,7 @@ func buildDecInputs(g *gen.G, nValid, mutPer int, kinds []string) []decInput {
 	return inputs
 }
 
-var deliveryModes = []string{"mem", "onebyte", "chunks", "dataeof"}
+var deliveryModes = []string{"mem", "onebyte", "chunks", "dataeof", "dataeof-full"}
 
 func pickDelivery(r *rand.Rand) (mode string, fin error, finName string, scanner bool) {
 	mode = deliveryModes[r.Intn(len(deliveryModes))]
